@@ -53,6 +53,16 @@ Proof.
   rewrite F. apply stream_lines.
 Qed.
 
+(* SendRaw never panics in the model; what it hands to Send are events, to which
+   send_lines / send_stream (and command_of_bytes_total) apply *)
+Theorem send_raw_total : forall raws, exists evs, send_raw_events raws = Ok evs.
+Proof.
+  induction raws as [|r rest IH]; [eexists; reflexivity|]. cbn [send_raw_events].
+  destruct (parse_event_total r) as [p E]. rewrite E. cbn [rbind].
+  destruct p as [e|]; [|eexists; reflexivity].
+  destruct IH as [l El]. rewrite El. cbn [rbind]. eexists. reflexivity.
+Qed.
+
 (* ---- Event.split keeps tags, source and command ------------------------------------------ *)
 
 Lemma split_fields : forall sp max e e1, In e1 (event_split sp max e) ->
